@@ -341,6 +341,9 @@ inline void onTick(int) {
     _exit(97);
   }
 }
+inline void stopWatchdog() {
+  struct itimerval z; memset(&z, 0, sizeof z); setitimer(ITIMER_REAL, &z, nullptr); signal(SIGALRM, SIG_IGN); G().law = nullptr;
+}
 inline void startWatchdog() {
   struct sigaction sa; memset(&sa, 0, sizeof sa); sa.sa_handler = onTick; sigaction(SIGALRM, &sa, nullptr);
   struct itimerval it; it.it_interval.tv_sec = 1; it.it_interval.tv_usec = 0; it.it_value = it.it_interval; setitimer(ITIMER_REAL, &it, nullptr);
@@ -448,7 +451,8 @@ inline int harnessMain(int argc, char** argv, const char* propertyId) {
     }
     setCurrent(cf.choices); startWatchdog();
     VecSrc s(cf.choices); Verdict v = runCase(*law, s);
-    printf("law %s\ncase: %s\n", law->name.c_str(), v.desc.c_str());
+    std::string lawNameCopy = law->name; stopWatchdog();
+    printf("law %s\ncase: %s\n", lawNameCopy.c_str(), v.desc.c_str());
     if (v.skipped) { printf("verdict: SKIPPED (%s)\n", v.knownHit.c_str()); return 0; }
     if (v.ok) { printf("verdict: PASS\n"); return 0; }
     printf("verdict: FAIL\n%s\n", v.msg.c_str()); return 1;
@@ -505,6 +509,7 @@ inline int harnessMain(int argc, char** argv, const char* propertyId) {
     } else if (!ok) { failed = true; failMsg = "rapidcheck reported failure without a failing case (gave up?)"; }
   }
   if (!out.empty()) writeStats(out, *law, st, failed, failFile, failMsg, exhaustive, nowS() - t0);
+  stopWatchdog();
   return failed ? 1 : 0;
 }
 
